@@ -498,3 +498,28 @@ Proof.
   - pose proof (maxl_in _ Hne') as Hin. apply in_map_iff in Hin. destruct Hin as (y & Hy & Hyin).
     rewrite <- Hy. apply Hub. exact Hyin.
 Qed.
+
+(* ---------- equal-timing path: add_gradients raises exactly over the limits ---------- *)
+Definition trap_max_grad (s : sys) (mga : Q) : Q :=
+  if ag_trap_passes_limits then (if Qle_bool mga 0 then s_max_grad s else mga) else s_max_grad s.
+Definition trap_max_slew (s : sys) (msa : Q) : Q :=
+  if ag_trap_passes_limits then (if Qle_bool msa 0 then s_max_slew s else msa) else s_max_slew s.
+
+Theorem add_trap_raises_iff_over_limit s mga msa t0 rest :
+  (1 <= length rest)%nat -> same_timing (GTrap t0 :: rest) = true ->
+  ~ tr_rise t0 == 0 -> ~ tr_fall t0 == 0 ->
+  let A := sumQ (map amp_of (GTrap t0 :: rest)) + eps in
+  ((exists e, add_gradients s mga msa (GTrap t0 :: rest) = Err e) <->
+   (trap_max_grad s mga + eps < Qabs A \/
+    trap_max_slew s msa * (1 + eps) < Qabs A / tr_rise t0 \/
+    trap_max_slew s msa * (1 + eps) < Qabs A / tr_fall t0)).
+Proof.
+  intros Hlen Hst Hr Hf A.
+  rewrite <- (make_trap_amp_raises_iff (trap_max_grad s mga) (trap_max_slew s msa) A
+                (tr_rise t0) (tr_flat t0) (tr_fall t0) (tr_delay t0) Hr Hf).
+  unfold add_gradients, trap_max_grad, trap_max_slew, A.
+  destruct rest as [|g1 rest]; [cbn in Hlen; lia|]. cbv beta iota zeta. rewrite Hst.
+  destruct (make_trap_amp _ _ _ _ _ _ _) eqn:E.
+  - split; intros (e & He); discriminate.
+  - split; intros _; eexists; reflexivity.
+Qed.
